@@ -176,6 +176,15 @@ func (a *FuncAction) Exec(ctx context.Context, bs Bindings, props StepProps) (*E
 		if exe == nil {
 			exe = NewExecution(nil)
 		}
+		// Execution and Events are exported structs, so F
+		// can hand us one that it didn't make with
+		// NewExecution: complete it.
+		if exe.Events == nil {
+			exe.Events = newEvents()
+		}
+		if exe.Events.Traces == nil {
+			exe.Events.Traces = NewTraces()
+		}
 		t := map[string]interface{}{
 			"action":  "executed",
 			"emitted": len(exe.Events.Emitted),
